@@ -1,2 +1,34 @@
-// verification hooks (see /verif/DESIGN.md section 10); compiled only with --features verif-hooks
+// Verification hooks for src/lfu/wtinylfu.rs (child module: sees private fields)
 #![allow(missing_docs, dead_code, unused_imports)]
+use super::*;
+pub use crate::verif_hooks::spec::{Abs, SegAbs, Vid, NMAX};
+
+#[cfg(kani)]
+impl<K: Hash + Eq, V, KH: KeyHasher<K>, FH: BuildHasher, RH: BuildHasher, WH: BuildHasher> WTinyLFUCache<K, V, KH, FH, RH, WH> {
+    pub(crate) fn verif_from_parts(tinylfu: TinyLFU<K, KH>, lru: LRUCache<K, V, WH>, slru: SegmentedCache<K, V, FH, RH>) -> Self {
+        WTinyLFUCache { tinylfu, lru, slru }
+    }
+
+    /// (window view, main view, all lists well formed)
+    pub(crate) fn verif_check(&self) -> (Abs, SegAbs, bool)
+    where
+        K: Vid,
+        V: Vid,
+    {
+        let (w, w1) = self.lru.verif_check();
+        let (s, w2) = self.slru.verif_check();
+        (w, s, w1 && w2)
+    }
+
+    pub(crate) fn verif_estimator(&self) -> &TinyLFU<K, KH> {
+        &self.tinylfu
+    }
+
+    pub(crate) fn verif_forget(self) {
+        core::mem::forget(self)
+    }
+}
+
+#[cfg(kani)]
+#[path = "/verif/kani/harness_wtinylfu.rs"]
+pub(crate) mod harness;
